@@ -6,6 +6,8 @@ from vmon import gen
 from vmon import oracle as orc
 from vmon.checks.common import obs, fail
 
+SCALE_EVERY = 37
+SCALE = True   # worker: every fortieth case (or SCALE_EVERY-th) is blown up by scale_case below
 PROP = "C16"
 MONITORS = ["seq_inv", "split"]
 ALSO = ()
@@ -24,6 +26,15 @@ OPS = ["transpose", "set_channel", "scale", "pad", "iter_abs_edit", "iter_rel_ed
 FLOORS = {"quick": {"c16.untouched_side_checked": 2000, "#c16.route.": 14, "#c16.op.": 17, "c16.mutated_side_changed": 1800},
           "thorough": {"c16.untouched_side_checked": 100000, "#c16.route.": 14}}
 
+
+def scale_case(case, i):
+    if case["route"] != "split":
+        return
+    t = case["piece"]["tracks"][0]
+    t["notes"] = gen.big_notes(i, n=[400, 700][(i // 40) % 2], chans=(0, 1), pitches=(60, 61, 72), lmin=1, lmax=40, gap=(0, 30))
+    t.pop("pad", None)
+    case["piece"]["tracks"] = [t]
+    case["caps"] = [[96], [], [96, 96], [1000]][(i // 80) % 4]
 
 def make_case(rng, i, tier):
     route = ROUTES[i % len(ROUTES)]
